@@ -295,6 +295,8 @@ def worker_init():
         key_asis=utils_mod.get_history_cache_key,
         key_used=key_used or rails_mod.get_history_cache_key,
         which="lp" if key_used is not None else "asis",
+        # "repaired" = fixes/C15-llm-params-overlap.diff is in the tree (per-LLM registry of open sections + llm_for_call)
+        pmode="repaired" if hasattr(params_mod, "llm_for_call") else "asis",
     )
 
 
@@ -704,7 +706,13 @@ def g_params_case(rng):
         while any(progs.values()):
             m = rng.choice([m for m, p in progs.items() if p])
             sched.append(progs[m].pop(0))
-    return {"kind": "params", "attrs": attrs, "kw": kw, "managers": managers, "sched": sched, "mode": mode}
+    # the task every manager belongs to (only meaningful for the repaired LLMParams, which knows the sections of the
+    # current task): interleaved managers are different tasks; nested / sequential ones are one task or different tasks
+    if mode == "random" or rng.random() < 0.5:
+        owner = list(range(nm))
+    else:
+        owner = [0] * nm
+    return {"kind": "params", "attrs": attrs, "kw": kw, "managers": managers, "sched": sched, "mode": mode, "owner": owner}
 
 
 def g_conc_case(rng):
@@ -1010,6 +1018,25 @@ def run_convs(case):
     return {"which": E["which"], "iso": iso, "shared": shared, "final_temp": llm.temperature, "final_maxtok": llm.max_tokens}
 
 
+def params_owner(case):
+    return case.get("owner") or list(range(len(case["managers"])))
+
+
+def own_task_ok(case):
+    """the sections of ONE task are sequential code: properly nested among themselves, calls made by the innermost one"""
+    owner = params_owner(case)
+    stk = collections.defaultdict(list)
+    for m, act in case["sched"]:
+        st = stk[owner[m]]
+        if act == "enter":
+            st.append(m)
+        elif not st or st[-1] != m:
+            return False
+        elif act == "exit":
+            st.pop()
+    return True
+
+
 def run_params(case):
     E = _ENV
 
@@ -1031,17 +1058,92 @@ def run_params(case):
         return None  # the object does not know the parameter: a call runs without it
 
     calls = []
-    obs = {}
-    try:
-        for m, act in case["sched"]:
-            if act == "enter":
-                mgrs[m].__enter__()
-            elif act == "exit":
-                mgrs[m].__exit__(None, None, None)
-            else:
-                calls.append([m, [[int(n), seen(PNAMES[int(n)])] for n in case["managers"][m]]])
-    except Exception as e:  # noqa
-        obs["exc"] = type(e).__name__ + ": " + str(e)[:100]
+    obs = {"pmode": E["pmode"]}
+    if E["pmode"] == "repaired":
+        # every task has its own context (copied from a clean one, as asyncio tasks spawned by a server are); an LLM call
+        # is made on the object `llm_for_call` returns in the context of the calling task (what `llm_call` does)
+        owner = params_owner(case)
+        ctxs = {t: contextvars.copy_context() for t in set(owner)}
+        views = []
+
+        def view_of(obj):
+            out = []
+            for i, name in enumerate(PNAMES):
+                if hasattr(obj, name):
+                    out.append([i, getattr(obj, name)])
+                elif hasattr(obj, "model_kwargs") and name in obj.model_kwargs:
+                    out.append([i, obj.model_kwargs[name]])
+                else:
+                    out.append([i, "absent"])
+            return out
+
+        # an LLM call = what `llm_call` does: a section without parameters marks the call as in flight, the call is made
+        # on `llm_for_call(llm)`; the provider reads the parameters LATER (langchain awaits callbacks first): when every
+        # manager is a task of its own the read is deferred until just before the next step of the same task, so that
+        # steps of other tasks fall between the decision and the read (the call is in flight meanwhile)
+        pm = E["params_mod"]
+        defer = len(set(owner)) == len(owner)
+        pending = {}
+        # the label sequence really executed, for the model: section ids = managers, then one id per LLM call
+        # (the parameterless section that marks it as in flight; its "call" label is the moment the parameters are read)
+        trace, mark_owner = [], []
+        nm = len(mgrs)
+
+        def begin(m):
+            mark = pm.llm_params(llm)
+            mark.__enter__()
+            cid = nm + len(mark_owner)
+            mark_owner.append(owner[m])
+            trace.append([cid, "enter"])
+            return mark, pm.llm_for_call(llm), cid
+
+        def finish(m):
+            mark, obj, cid = pending.pop(m)
+            v = view_of(obj)
+            trace.append([cid, "call"])
+            mark.__exit__(None, None, None)
+            trace.append([cid, "exit"])
+            views[[i for i, x in enumerate(views) if x[0] == m and x[1] is None][0]][1] = v
+
+        try:
+            for m, act in case["sched"]:
+                ctx = ctxs[owner[m]]
+                if m in pending:
+                    ctx.run(finish, m)
+                if act == "enter":
+                    ctx.run(mgrs[m].__enter__)
+                    trace.append([m, "enter"])
+                elif act == "exit":
+                    ctx.run(mgrs[m].__exit__, None, None, None)
+                    trace.append([m, "exit"])
+                else:
+                    views.append([m, None])
+                    pending[m] = ctx.run(begin, m)
+                    if not defer:
+                        ctx.run(finish, m)
+            for m in list(pending):
+                ctxs[owner[m]].run(finish, m)
+        except Exception as e:  # noqa
+            obs["exc"] = type(e).__name__ + ": " + str(e)[:100]
+        for m, v in views:
+            d = dict((i, x) for i, x in (v or []))
+            calls.append([m, [[int(n), None if d.get(int(n), "absent") == "absent" else d[int(n)]] for n in case["managers"][m]]])
+        obs["views"] = views
+        obs["trace"] = trace
+        obs["section_owner"] = list(owner) + mark_owner
+        obs["registry_left"] = len(getattr(E["params_mod"], "_open_sections", {}))
+        getattr(E["params_mod"], "_open_sections", {}).clear()
+    else:
+        try:
+            for m, act in case["sched"]:
+                if act == "enter":
+                    mgrs[m].__enter__()
+                elif act == "exit":
+                    mgrs[m].__exit__(None, None, None)
+                else:
+                    calls.append([m, [[int(n), seen(PNAMES[int(n)])] for n in case["managers"][m]]])
+        except Exception as e:  # noqa
+            obs["exc"] = type(e).__name__ + ": " + str(e)[:100]
     obs["calls"] = calls
     obs["attr"] = [[i, getattr(llm, PNAMES[i]) if hasattr(llm, PNAMES[i]) else "absent"] for i in range(len(PNAMES))]
     obs["kw"] = None if not hasattr(llm, "model_kwargs") else [[i, llm.model_kwargs.get(PNAMES[i], "absent")] for i in range(len(PNAMES))]
@@ -1104,7 +1206,7 @@ def run_conc(case):
 
     outs = run_coro(together(), virtual=True)
     shared = [{"out": outs[i], "calls": calls_of(llm, i)} for i in range(len(reqs))]
-    return {"iso": iso, "shared": shared, "final_temp": llm.temperature, "sections": [list(s) for s in E["sections"]]}
+    return {"iso": iso, "shared": shared, "final_temp": llm.temperature, "sections": [list(s) for s in E["sections"]], "pmode": E["pmode"]}
 
 
 def prog_ids(prog):
@@ -1144,7 +1246,7 @@ def run_ctx(case):
 
     run_coro(run_items(case["prog"]), virtual=True)
     return {"iso": iso, "shared": [out.get(i) for i in range(len(reqs))], "final": [llm.temperature, llm.max_tokens],
-            "sections": [list(x) for x in _ENV["sections"]], "own": [own_options(r["options"]) for r in reqs]}
+            "sections": [list(x) for x in _ENV["sections"]], "pmode": _ENV["pmode"], "own": [own_options(r["options"]) for r in reqs]}
 
 
 # ----------------------------------------------------------------------------- model
@@ -1213,6 +1315,14 @@ def model_requests(case, obs):
         if any(st is None for st in obs["shared"]):
             return []
         return [{"m": "C15.ctxprog", "which": "set", "prog": _prog_json(case["prog"], obs)}]
+    if k == "params" and obs.get("pmode") == "repaired":
+        # the abstract transition system of the repaired LLMParams (every parameter exists on the object)
+        if "exc" in obs or not all_present(case):
+            return []
+        cfg = [[int(n), v] for n, v in case["attrs"].items()] + [[int(n), v] for n, v in (case["kw"] or {}).items()]
+        alts = [[[int(n), v] for n, v in m.items()] for m in case["managers"]] + [[] for _ in obs["section_owner"][len(case["managers"]):]]
+        return [{"m": "C15.paramsR", "cfg": cfg, "alts": alts, "owners": obs["section_owner"], "trace": obs["trace"],
+                 "universe": sorted(int(n) for n in list(case["attrs"]) + list(case["kw"] or {}))}]
     if k == "params":
         if "exc" in obs:
             return []
@@ -1288,6 +1398,22 @@ def compare(case, obs, mouts):
             got = [_opt_index(obs, c) for c in (st.get("opts_seen") or [])]
             if got != exp.get(i, []):
                 return f"request {i}: generation options seen by its LLM calls {got} (index of the owning request), model of the prologue says {exp.get(i, [])}"
+        return None
+    if k == "params" and obs.get("pmode") == "repaired":
+        if not mouts:
+            return None
+        m = mouts[0]
+        uni = [i for i, _ in m["store"]]
+        got_views = [[[i, x] for i, x in v if i in uni] for _, v in obs["views"]]
+        mviews = [v for _, v in sorted(m["calls"], key=lambda c: c[0])]  # marker ids are numbered in the order the calls began
+        if mviews != got_views:
+            return f"parameter values the LLM calls ran with: impl {got_views} model (viewR) {mviews}"
+        fin = {i: a for i, a in obs["attr"] if a != "absent"}
+        fin.update({i: a for i, a in (obs["kw"] or []) if a != "absent"})
+        if [[i, fin.get(i)] for i in uni] != m["store"]:
+            return f"object after the schedule: impl {[[i, fin.get(i)] for i in uni]} model {m['store']}"
+        if m["open"]:
+            return f"model: sections {m['open']} still open"
         return None
     if k == "params":
         m = mouts[0]
@@ -1395,6 +1521,34 @@ def oracle(case, obs):
                 known = str(n) in case["attrs"] or case["kw"] is not None
                 if known and v != alt[str(n)]:
                     return f"call of manager {m} runs with {PNAMES[n]}={v!r} instead of its own {alt[str(n)]!r}"
+        if obs.get("pmode") == "repaired":
+            # every call runs with the configured values overridden by the open sections of its OWN task only
+            # (all parameters, not only the ones the task sets), whatever the sections of other tasks do
+            owner = params_owner(case)
+            cfg = {}
+            for i in range(len(PNAMES)):
+                cfg[i] = case["attrs"][str(i)] if str(i) in case["attrs"] else ((case["kw"] or {}).get(str(i), "absent"))
+            open_, vi = [], 0
+            for m, act in case["sched"]:
+                if act == "enter":
+                    open_.append(m)
+                elif act == "exit":
+                    open_.remove(m)
+                else:
+                    exp = dict(cfg)
+                    for o in open_:
+                        if owner[o] == owner[m]:
+                            for n, v in case["managers"][o].items():
+                                if str(n) in case["attrs"] or case["kw"] is not None:
+                                    exp[int(n)] = v
+                    got = dict((i, x) for i, x in obs["views"][vi][1])
+                    vi += 1
+                    if got != exp:
+                        bad = sorted(i for i in exp if got.get(i) != exp[i])
+                        return (f"call of manager {m} (task {owner[m]}) runs with " + ", ".join(f"{PNAMES[i]}={got.get(i)!r}" for i in bad)
+                                + " instead of " + ", ".join(f"{PNAMES[i]}={exp[i]!r}" for i in bad) + " (configured values + the sections of its own task)")
+            if obs.get("registry_left"):
+                return f"no section open, but the registry of open sections still has {obs['registry_left']} entries"
         for i, v in obs["attr"]:
             exp = case["attrs"].get(str(i), "absent")
             if v != exp:
@@ -1487,16 +1641,18 @@ def signature(case, obs, msg):
                 return _evicted(case, obs, st)
         return None
     if k == "params":
-        if not _nested(case["sched"]):
+        if not _nested(case["sched"]) and obs.get("pmode") != "repaired":
             return "overlapping-llm-params-sections"
         if not all_present(case):
             return "absent-param-left-as-none"
         return None
     if k == "ctx":
+        if obs.get("pmode") == "repaired":
+            return None
         return "overlapping-llm-params-sections" if _sections_overlap(obs.get("sections", [])) else None
     if k == "conc":
-        if " alone: " in (msg or ""):
-            return None  # a single request cannot overlap with anything
+        if " alone: " in (msg or "") or obs.get("pmode") == "repaired":
+            return None  # a single request cannot overlap with anything; the repaired LLMParams has no excuse
         return "overlapping-llm-params-sections" if _sections_overlap(obs.get("sections", [])) else None
     return None
 
